@@ -18,7 +18,7 @@ META = dict(
                "qucumber/utils/data.py: extract_refbasis_samples"],
     bounds=dict(quick="index identity n = 1..8 on 3 symbolic rows; rotation n=2,3 non-palindromic strings; spaces of size 1..5 all indices; extract_refbasis on 3 rows x 2 sites over the alphabet {X,Y,Z,H}; size 21 refused",
                 thorough="spaces of size 1..7; size 20 accepted (2^20 rows) and 21 refused; 2 rows x 4 sites"),
-    outside=["load_data / load_data_DM: file contents reach the code only through numpy.loadtxt's C parser, which cannot carry symbolic fields - NOT claimed",
+    outside=["load_data / load_data_DM for arbitrary file contents: contents reach the code only through numpy.loadtxt's C parser, which cannot carry symbolic fields; only a bounded enumeration of small generated files (N, n <= 2, 0/1 samples, letters from {X,Y,Z,H}, a grid of target values; each path written and loaded twice) is explored",
              "sizes 8..19 of the Hilbert space (same vectorised code path, not enumerated)"],
     stubs=["torch -> vf.symtorch for part (1); real torch for part (2)"],
     exhaustive_parts="part (2) is exhaustive enumeration within its bound",
@@ -129,6 +129,72 @@ def refbasis(I, rows=3, sites=2):
     return True, ""
 
 
+def loaders(I, dm=False):
+    """load_data / load_data_DM return what the files contain (targets to single precision); the same paths are written and
+    loaded twice with different contents (nothing may be remembered between calls).  File contents are chosen by the symbolic
+    integers (bits of the samples, a content code for letters and target values): enumeration within the bound."""
+    import os
+    import shutil
+    import tempfile
+    import torch
+    from qucumber.utils import data as D
+
+    N, n, code = int(I["N"]), int(I["n"]), int(I["code"])
+    bits = [[int(I["b%d%d" % (r, c)]) for c in range(2)] for r in range(2)]
+    d = tempfile.mkdtemp(prefix="c19.")
+    try:
+        paths = {k: os.path.join(d, k + ".txt") for k in ("samples", "psi", "re", "im", "tr_bases", "bases")}
+        for rnd in range(2):
+            cc = (code + 5 * rnd) % 16
+            samples = [[(bits[r][c] + rnd * (r + c)) % 2 for c in range(n)] for r in range(N)]
+            letters = [[LET[(cc >> (2 * ((r + c) % 2))) & 3] for c in range(n)] for r in range(N)]
+            allb = sorted({"".join(l) for l in letters})
+            dim = 2 ** n
+            vals = [((cc + 3 * k) % 9 - 4) / 8.0 + 0.001 * k for k in range(2 * dim * dim)]
+            with open(paths["samples"], "w") as f:
+                f.write("\n".join(" ".join(str(x) for x in row) for row in samples) + "\n")
+            with open(paths["tr_bases"], "w") as f:
+                f.write("\n".join(" ".join(row) for row in letters) + "\n")
+            with open(paths["bases"], "w") as f:
+                f.write("\n".join(allb) + "\n")
+            if dm:
+                with open(paths["re"], "w") as f:
+                    f.write("\n".join(" ".join(repr(vals[i * dim + j]) for j in range(dim)) for i in range(dim)) + "\n")
+                with open(paths["im"], "w") as f:
+                    f.write("\n".join(" ".join(repr(vals[dim * dim + i * dim + j]) for j in range(dim)) for i in range(dim)) + "\n")
+                out = D.load_data_DM(paths["samples"], paths["re"], paths["im"], paths["tr_bases"], paths["bases"])
+            else:
+                with open(paths["psi"], "w") as f:
+                    f.write("\n".join("%r %r" % (vals[k], vals[dim + k]) for k in range(dim)) + "\n")
+                out = D.load_data(paths["samples"], paths["psi"], paths["tr_bases"], paths["bases"])
+            if len(out) != 4:
+                return False, "loader returned %d items" % len(out)
+            got_s = out[0].reshape(N, n) if (N == 1 or n == 1) else out[0]
+            if got_s.dtype != torch.double or got_s.tolist() != [[float(x) for x in row] for row in samples]:
+                return False, "round %d: samples %s, file has %s" % (rnd, out[0].tolist(), samples)
+            import numpy as np
+
+            f32 = lambda x: float(np.float32(x))  # noqa: E731
+            if dm:
+                want = [[[f32(vals[i * dim + j]) for j in range(dim)] for i in range(dim)], [[f32(vals[dim * dim + i * dim + j]) for j in range(dim)] for i in range(dim)]]
+                got_t = out[1].reshape(2, dim, dim).tolist()
+            else:
+                want = [[f32(vals[k]) for k in range(dim)], [f32(vals[dim + k]) for k in range(dim)]]
+                got_t = out[1].tolist()
+            if got_t != want:
+                return False, "round %d: target %s, file has %s" % (rnd, got_t, want)
+            got_b = np.asarray(out[2]).reshape(N, n).tolist() if n > 1 or N > 1 else [[str(np.asarray(out[2]).reshape(-1)[0])]]
+            if [[str(x) for x in row] for row in got_b] != letters:
+                return False, "round %d: bases %s, file has %s" % (rnd, got_b, letters)
+            if sorted(str(x) for x in np.asarray(out[3]).reshape(-1)) != allb:
+                return False, "round %d: basis list %s, file has %s" % (rnd, out[3], allb)
+            # a caller editing what it got must not affect later loads
+            np.asarray(out[2]).reshape(-1)[0] = "Q"
+        return True, ""
+    finally:
+        shutil.rmtree(d, ignore_errors=True)
+
+
 def jobs(tier):
     J = [dict(name="index-n%d" % n, module="checks.c19", scenario="index_identity", kwargs=dict(n=n)) for n in range(1, 9)]
     J.append(dict(name="site-order-n2", module="checks.c19", scenario="site_order", kwargs=dict(n=2, strings=["XZ", "ZY", "YX"])))
@@ -143,6 +209,9 @@ def specs(tier):
     r, s_ = (3, 2) if tier == "quick" else (2, 4)
     S.append(dict(name="refbasis", module="checks.c19", function="refbasis", kwargs=dict(rows=r, sites=s_),
                   inputs={"c%d_%d" % (i, j): ("int", 0, 3) for i in range(r) for j in range(s_)}))
+    lin = dict(N=("int", 1, 2), n=("int", 1, 2), code=("int", 0, 15 if tier != "quick" else 3), b00=("int", 0, 1), b01=("int", 0, 1), b10=("int", 0, 1), b11=("int", 0, 1))
+    S.append(dict(name="loaders-psi", module="checks.c19", function="loaders", kwargs=dict(dm=False), inputs=lin))
+    S.append(dict(name="loaders-dm", module="checks.c19", function="loaders", kwargs=dict(dm=True), inputs=lin))
     return S
 
 
